@@ -1,3 +1,3 @@
 SPECIFICATION Spec
-INVARIANTS ExactlyOneKind GetIffIs IntImpliesFloat OwnVariantIsIdentity OwnedCommutes Dump
+INVARIANTS ExactlyOneKind GetIffIs DisplayExtendsAsString IntImpliesFloat OwnVariantIsIdentity OwnedCommutes Dump
 CHECK_DEADLOCK FALSE
